@@ -5,7 +5,18 @@ for P in "$@"; do
     D=/tmp/mut-$P/_out/$K
     [ -f $D/patch.diff ] || continue
     echo "=== $P-$K $(date +%H:%M:%S)" >> /tmp/confirm.log
-    python3 /verif/bin/dev/confirm_mutant.py $P $D $P-$K 2>&1 | python3 -c "
+    case $P in
+      C01) CHK=C01,C03,C16 ;;
+      C02) CHK=C02,C03,C01 ;;
+      C03) CHK=C03,C13,C07 ;;
+      C06) CHK=C06,C01,C03,C07 ;;
+      C07) CHK=C07,C08,C06 ;;
+      C10) CHK=C10,C09 ;;
+      C16) CHK=C16,C03 ;;
+      C19) CHK=C19,C05 ;;
+      *) CHK=$P ;;
+    esac
+    python3 /verif/bin/dev/confirm_mutant.py $P $D $P-$K $CHK 2>&1 | python3 -c "
 import sys,json
 t=sys.stdin.read()
 try:
